@@ -57,9 +57,11 @@ def malformed(draw, with_mutated=False):
     k = draw(st.sampled_from(['unknown', 'unknown', 'truncated', 'order', 'trail', 'trail']))
     if k == 'unknown':
         b = draw(bases())
-        ch = draw(st.sampled_from(UNKNOWN_CHARS))
-        i = draw(st.integers(0, len(b)))
-        return {'t': b[:i] + ch + b[i:], 'kind': k, 'strict': True}
+        for _ in range(draw(st.sampled_from([1, 1, 2, 3]))):  # one or several unknown characters, anywhere
+            ch = draw(st.sampled_from(UNKNOWN_CHARS))
+            i = draw(st.integers(0, len(b)))
+            b = b[:i] + ch + b[i:]
+        return {'t': b, 'kind': k, 'strict': True}
     if k == 'truncated':
         return {'t': draw(st.sampled_from(TRUNCATED)), 'kind': k, 'strict': True}
     if k == 'order':
